@@ -447,6 +447,57 @@ def check_dsort(P, R):
         R.ob(rule, "line, \\001, date key, \\001, time key, newline", True)
     else:
         R.finding(rule, pl, "key separators %s" % seps, "each line must be followed by \\001 <date> \\001 <time> \\n")
+    # the time key is written for every value that has a time part: fold the guard of the %T key over the three kinds of values
+    kinds = {"date only": {"sandwich": 0, "typ": 1}, "time only": {"sandwich": 1, "typ": 0}, "date and time": {"sandwich": 1, "typ": 1}}
+
+    def subst(e, vals):
+        if e is None:
+            return None
+        if e.get("k") == "MemberExpr" and e.get("n") in vals:
+            return {"k": "IntegerLiteral", "v": vals[e["n"]], "t": e.get("t")}
+        o = dict(e)
+        if "c" in e:
+            o["c"] = [subst(c, vals) if c is not None else None for c in e["c"]]
+        return o
+
+    def pred_value(cond, vals):
+        c = strip(cond)
+        if c is not None and c.get("k") == "UnaryOperator" and c.get("op") == "!":
+            v = pred_value(c["c"][0], vals)
+            return None if v is None else (not v)
+        if c is not None and c.get("k") == "BinaryOperator" and c.get("op") in ("&&", "||"):
+            a, b = pred_value(c["c"][0], vals), pred_value(c["c"][1], vals)
+            if a is None or b is None:
+                return None
+            return (a and b) if c["op"] == "&&" else (a or b)
+        if c is not None and c.get("k") == "CallExpr":
+            f = tu.func(c.get("callee"))
+            if f is None:
+                return None
+            rets = [r for r in f.walk() if r.get("k") == "ReturnStmt" and kids(r)]
+            if len(rets) != 1:
+                return None
+            try:
+                return bool(ceval(subst(kids(rets[0])[0], vals), {}, tu.types))
+            except NotConst:
+                return None
+        return None
+    tcalls = [c for c in pl.calls("dt_strfdt") if strip(call_args(c)[2]).get("s") == "%T"]
+    if tcalls:
+        gs = [g for g in guards_of(pl, tcalls[0]) if "pol" in g and any(y.get("k") == "CallExpr" and (y.get("callee") or "").startswith("dt_sandwich")
+                                                                       for y in walk(g["cond"]))]
+        for kind, vals in kinds.items():
+            if kind == "date only":
+                continue
+            vs = [pred_value(g["cond"], vals) for g in gs]
+            truth = all((v if g["pol"] else (not v)) for v, g in zip(vs, gs) if v is not None)
+            if any(v is None for v in vs):
+                raise AnalysisBroken("%s: guard of the time key not decodable" % rule)
+            if truth:
+                R.ob(rule, "time key written for %s values" % kind, True)
+            else:
+                R.finding(rule, pl, "time key for %s values" % kind, "the %%T key is not written for %s values: all of them get the same "
+                          "empty key and come out in byte order of their text, not in time order" % kind, tcalls[0])
     for fname, want in (("spawn_sort", ["sort", "-t\x01", "-k2"]), ("spawn_cut", ["cut", "-d\x01", "-f1"])):
         g = tu.global_var("cmdline", fname)
         if g is None:
